@@ -43,7 +43,7 @@ def work_shared(item, opts):
     cls = env.optimizer_classes()[name]
     Cfg = env.config_class(name)
     shared = Cfg(**item["cfg"])
-    before = canon(shared)
+    before = canon(shared, private=False)
     out = {"opt": name, "viol": [], "ok": 0}
     rid = f"c09s-{os.getpid()}-{item['k']}"
     res = []
@@ -51,14 +51,14 @@ def work_shared(item, opts):
         tasks.register_run(f"{rid}-{j}", spec)
         try:
             t = tasks.build_task(spec, f"{rid}-{j}")
-            tb = canon(t)
+            tb = canon(t, private=False)
             st, r = optimize_plain(cls(shared), t, mode="serial", workers=2)
             res.append((st, r))
-            for f in diff_fields(tb, canon(t), "task."):
+            for f in diff_fields(tb, canon(t, private=False), "task."):
                 out["viol"].append({"key": {"optimizer": name, "kind": "input-modified", "field": f}, "detail": f"shared-config run {j}: {f} changed"})
         finally:
             tasks.unregister_run(f"{rid}-{j}")
-        after = canon(shared)
+        after = canon(shared, private=False)
         for f in diff_fields(before, after, "config."):
             nm = f.split(".", 1)[1]
             out["viol"].append({"key": {"optimizer": name, "kind": "input-modified", "field": f},
